@@ -103,6 +103,18 @@ pub fn programs(tier: Tier) -> ProgramSet {
             out.push(Program { idx: 0, label: format!("{} [custom error type mentioning T]", e.label), k: e.k + 1, spec, aux: json!({"generic_err": true}), source });
         }
     }
+    // nothing to match at all: an enum without variants, and enums whose variants are all disabled - every input is a miss
+    for (n, label) in [(0usize, "N=0 (no variants)"), (1, "N=1, the variant disabled"), (3, "N=3, every variant disabled")] {
+        for custom in [true, false] {
+            let mut spec = EnumSpec::base(n);
+            for v in spec.variants.iter_mut() {
+                v.disabled = true;
+            }
+            spec.parse_err = custom;
+            let source = render(&spec);
+            out.push(Program { idx: 0, label: format!("{} [{}]", label, if custom { "custom error" } else { "standard error" }), k: n.min(3), spec, aux: json!(null), source });
+        }
+    }
     for (spec0, label) in scale_specs() {
         if !parse_domain(&spec0) {
             continue;
